@@ -117,7 +117,7 @@ Definition check (k : lcase) : bool :=
   && langs_eqb (map o_lang forc) (k_o_forc_lang k)
   && email_eqb (send_email_texts (k_clang k) (k_allowed k) base_lang subj body (k_tr_subject k) (k_tr_body k))
                (k_o_email k)
-  && ivr_eqb (ivr_view (say_msg_out (k_clang k) (k_allowed k) base_lang say (k_audio k)
+  && ivr_eqb (ivr_view (say_msg_out_gen ev_text (k_clang k) (k_allowed k) base_lang say (k_audio k)
                                     (k_tr_say_text k) (k_tr_say_audio k))) (k_o_say k)
   && ivr_eqb (ivr_view (play_audio_out (k_clang k) (k_allowed k) base_lang play_url (k_tr_play_audio k)))
              (k_o_play k).
